@@ -47,3 +47,4 @@ Proof.
   destruct (wit (FOps MN H) fid) as [s|] eqn:E; [|vm_compute in E; discriminate].
   exists s. vm_compute in E. inversion E; subst s. vm_compute. repeat split.
 Qed.
+Print Assumptions regular_float_refuted.
